@@ -294,7 +294,7 @@ class Ev:
 		self.guards: list[Any] = guards or []
 
 	# ---------------------------------------------------------------- helpers
-	def exit_if(self, cond: Any, excname: str, on_exit: Callable[[], None] | None = None) -> None:
+	def exit_if(self, cond: Any, excname: str, on_exit: Callable[[], None] | None = None, any_subclass: bool = False) -> None:
 		"""Register an exceptional exit: the current path continues under `not cond`."""
 		if self.mode == 'spec':
 			return
@@ -314,7 +314,9 @@ class Ev:
 			self.st.assume(full)
 			if on_exit is not None:
 				on_exit()
-			raise RaiseSignal(ExcVal(None, cname=excname))
+			ex = ExcVal(None, cname=excname)
+			ex.any_subclass = any_subclass  # type: ignore[attr-defined]
+			raise RaiseSignal(ex)
 		self.st.assume(z3.Not(full))
 
 	def lift(self, v: Any, ty: Ty | None = None) -> Val:
@@ -451,7 +453,7 @@ class Ev:
 	# ---------------------------------------------------------------- main dispatch
 	def eval(self, n: ast.expr) -> Val:
 		c = self.fn.contract
-		if c is not None and c.rewrites and self.rw and isinstance(n, (ast.Subscript, ast.Attribute, ast.Compare, ast.BoolOp, ast.ListComp)):
+		if c is not None and c.rewrites and self.rw and isinstance(n, (ast.Subscript, ast.Attribute, ast.Compare, ast.BoolOp, ast.ListComp, ast.Dict)):
 			txt = ast.unparse(n)
 			if txt in c.rewrites:
 				self.eng.used_rewrites.add(f'{self.fn.label}: {txt}  ~>  {c.rewrites[txt]}')
